@@ -299,3 +299,195 @@ Qed.
 Lemma rr_other_type_rejected : exists ty afi r safi b,
   rr_construct ty afi r safi = Ok b /\ valid_msg_with (mkw false false true) b = false.
 Proof. exists 6, 1, 0, 1. eexists. split; vm_compute; reflexivity. Qed.
+
+(* ------------------------------------------------------------------------------------- *)
+(** * IPv4 prefix lists (model/YPrefix4.v) and single attributes (model/YAttr.v) *)
+From YV Require Import model.YPrefix4 model.YAttr.
+
+Lemma walk_nil fuel step : Walker.walk fuel step [] = true.
+Proof. destruct fuel; reflexivity. Qed.
+
+(** a concatenation of elements each of which [step] consumes exactly is accepted *)
+Lemma walk_concat step (elems : list bytes) :
+  (forall e, In e elems -> e <> [] /\ forall rest, step (e ++ rest) = Some rest) ->
+  forall fuel, (length (concat elems) <= fuel)%nat -> Walker.walk fuel step (concat elems) = true.
+Proof.
+  induction elems as [|e es IH]; intros H fuel Hf; cbn [concat].
+  - apply walk_nil.
+  - destruct (H e (or_introl eq_refl)) as [Hne Hs].
+    destruct e as [|x e']; [congruence|].
+    cbn [concat] in Hf. rewrite app_length in Hf. cbn [length] in Hf.
+    destruct fuel as [|f]; [lia|].
+    cbn [app Walker.walk]. change (x :: e' ++ concat es) with ((x :: e') ++ concat es). rewrite Hs.
+    apply IH; [intros e0 He0; apply H; right; exact He0 | lia].
+Qed.
+
+Lemma walk_all_concat step (elems : list bytes) :
+  (forall e, In e elems -> e <> [] /\ forall rest, step (e ++ rest) = Some rest) ->
+  walk_all step (concat elems) = true.
+Proof. intros H. unfold walk_all. apply walk_concat; [exact H | lia]. Qed.
+
+Lemma v4_octets_ceil l : l <= 32 -> N.of_nat (v4_octets l) = ceil8 l.
+Proof.
+  intros H. unfold v4_octets, ceil8.
+  destruct ((16 <? l) && (l <=? 24)) eqn:A; [cbn; lia|].
+  destruct ((8 <? l) && (l <=? 16)) eqn:B; [cbn; lia|].
+  destruct ((0 <? l) && (l <=? 8)) eqn:C; [cbn; lia|].
+  destruct (l =? 0) eqn:D; cbn; lia.
+Qed.
+
+Lemma len_take_be4 k a : (k <= 4)%nat -> len (take k (be 4 a)) = N.of_nat k.
+Proof. intros H. unfold len, take. rewrite firstn_length, length_be. lia. Qed.
+
+Lemma v4_octets_le4 l : (v4_octets l <= 4)%nat.
+Proof. unfold v4_octets. repeat match goal with |- context [if ?c then _ else _] => destruct c end; lia. Qed.
+
+Lemma step_prefix_enc p rest : pfx_ok p = true ->
+  step_prefix 32 (enc_prefix p ++ rest) = Some rest.
+Proof.
+  destruct p as [a l]. unfold pfx_ok, enc_prefix. cbn [fst snd]. intros H.
+  assert (Hl : l <= 32) by lia.
+  cbn [app step_prefix].
+  destruct (l <=? 32) eqn:E; [|lia].
+  rewrite <- (v4_octets_ceil l Hl), <- (len_take_be4 _ a (v4_octets_le4 l)), splitN_app. reflexivity.
+Qed.
+
+(** every prefix list Update.construct_prefix_v4 returns is a valid NLRI / withdrawn field:
+    each prefix is its length followed by exactly ceil(length/8) octets *)
+Lemma construct_prefix_v4_valid ps b : construct_prefix_v4 ps = Ok b -> valid_prefixes4 cfg0 b = true.
+Proof.
+  unfold construct_prefix_v4. destruct (forallb pfx_ok ps) eqn:F; [|discriminate].
+  intros H; inversion H; subst b; clear H.
+  unfold valid_prefixes4. cbn [w_addpath cfg0]. apply walk_all_concat.
+  intros e He. apply in_map_iff in He as (p & <- & Hp).
+  rewrite forallb_forall in F. split; [destruct p; discriminate|].
+  intros rest. apply step_prefix_enc. apply F. exact Hp.
+Qed.
+
+Lemma construct_prefix_v4_ap_valid ps b :
+  construct_prefix_v4_ap ps = Ok b -> valid_prefixes4 (mkw false true false) b = true.
+Proof.
+  unfold construct_prefix_v4_ap.
+  destruct (forallb (fun p => (fst p <? 4294967296) && pfx_ok (snd p)) ps) eqn:F; [|discriminate].
+  intros H; inversion H; subst b; clear H.
+  unfold valid_prefixes4. cbn [w_addpath]. apply walk_all_concat.
+  intros e He. apply in_map_iff in He as (p & <- & Hp).
+  rewrite forallb_forall in F. specialize (F p Hp). rewrite andb_true_iff in F. destruct F as [_ F].
+  unfold enc_aprefix. split.
+  - cbn [be app]. discriminate.
+  - intros rest. unfold step_prefix_ap. rewrite <- app_assoc.
+    assert (E : split 4 (be 4 (fst p) ++ enc_prefix (snd p) ++ rest) = Some (be 4 (fst p), enc_prefix (snd p) ++ rest)).
+    { rewrite <- (length_be 4 (fst p)) at 1. apply split_app. }
+    rewrite E. apply step_prefix_enc. exact F.
+Qed.
+
+(** one attribute with a 1-octet length *)
+Lemma attr1_valid c fl ty v : bit 16 fl = false -> flags_ok fl ty = true -> value_ok c ty v = true ->
+  valid_attrs c (fl :: ty :: len v :: v) = true.
+Proof.
+  intros B F V. unfold valid_attrs. cbn [length walk_attrs]. rewrite B, splitN_all.
+  cbn [existsb negb andb]. rewrite F, V. destruct (length v); reflexivity.
+Qed.
+(** one attribute with a 2-octet length and the extended-length bit *)
+Lemma attr2_valid c fl ty v : len v < 65536 -> bit 16 fl = true -> flags_ok fl ty = true ->
+  value_ok c ty v = true -> valid_attrs c (fl :: ty :: be 2 (len v) ++ v) = true.
+Proof.
+  intros L B F V. unfold valid_attrs. rewrite be2 by exact L. cbn [app length walk_attrs]. rewrite B.
+  assert (E : u16 (len v / 256) (len v mod 256) = len v) by (unfold u16; lia).
+  rewrite E, splitN_all. cbn [existsb negb andb]. rewrite F, V. destruct (length v); reflexivity.
+Qed.
+
+Lemma len_be k n : len (be k n) = N.of_nat k.
+Proof. unfold len. rewrite length_be. reflexivity. Qed.
+
+Ltac attr_inv H := match type of H with (if ?c then _ else _) = Ok _ => destruct c eqn:?; try discriminate H end;
+                   inversion H; subst; clear H.
+
+(** ORIGIN, NEXT_HOP, MED, LOCAL_PREF, ATOMIC_AGGREGATE, AGGREGATOR, ORIGINATOR_ID: the flags
+    constant of the yabgp class (gen/Consts.v) fits the RFC category of its type code, the length
+    octet equals the fixed size *)
+Lemma construct_origin_valid c v b : construct_origin v = Ok b -> valid_attrs c b = true.
+Proof. unfold construct_origin. intros H. attr_inv H. apply attr1_valid; reflexivity. Qed.
+Lemma construct_nexthop_valid c a b : construct_nexthop a = Ok b -> valid_attrs c b = true.
+Proof.
+  unfold construct_nexthop. intros H. attr_inv H. apply attr1_valid; first [reflexivity | unfold value_ok; change c_ATTR_NextHop_ID with 3; cbv iota beta; rewrite len_be; reflexivity].
+Qed.
+Lemma construct_med_valid c v b : construct_med v = Ok b -> valid_attrs c b = true.
+Proof.
+  unfold construct_med, construct_u32. intros H. attr_inv H. apply attr1_valid; first [reflexivity | unfold value_ok; change c_ATTR_MED_ID with 4; cbv iota beta; rewrite len_be; reflexivity].
+Qed.
+Lemma construct_localpref_valid c v b : construct_localpref v = Ok b -> valid_attrs c b = true.
+Proof.
+  unfold construct_localpref, construct_u32. intros H. attr_inv H. apply attr1_valid; first [reflexivity | unfold value_ok; change c_ATTR_LocalPreference_ID with 5; cbv iota beta; rewrite len_be; reflexivity].
+Qed.
+Lemma construct_atomic_valid c b : construct_atomic = Ok b -> valid_attrs c b = true.
+Proof. unfold construct_atomic. intros H. inversion H. reflexivity. Qed.
+Lemma construct_originator_valid c a b : construct_originator a = Ok b -> valid_attrs c b = true.
+Proof.
+  unfold construct_originator. intros H. attr_inv H. apply attr1_valid; first [reflexivity | unfold value_ok; change c_ATTR_OriginatorID_ID with 9; cbv iota beta; rewrite len_be; reflexivity].
+Qed.
+Lemma construct_aggregator_valid asn4 ap cr asn a b :
+  construct_aggregator asn4 asn a = Ok b -> valid_attrs (mkw asn4 ap cr) b = true.
+Proof.
+  unfold construct_aggregator. intros H. attr_inv H. apply attr1_valid; first [reflexivity | unfold value_ok; change c_ATTR_Aggregator_ID with 7; cbv iota beta; cbn [w_asn4];
+  rewrite len_app, !len_be; destruct asn4; reflexivity].
+Qed.
+
+(** COMMUNITIES, CLUSTER_LIST, LARGE_COMMUNITY: multiples of 4 / 4 / 12 *)
+Lemma len_concat_be4 {A} (f : A -> N) l : len (concat (map (fun x => be 4 (f x)) l)) = 4 * N.of_nat (length l).
+Proof.
+  induction l as [|x l IH]; [reflexivity|].
+  cbn [map concat]. rewrite len_app, IH, len_be. cbn [length]. lia.
+Qed.
+Lemma construct_community_valid c l b : construct_community l = Ok b -> valid_attrs c b = true.
+Proof.
+  unfold construct_community. intros H.
+  destruct (forallb (fun c0 => comm_value c0 <? two32) l); [|discriminate]. cbv zeta in H. attr_inv H.
+  apply attr1_valid; first [reflexivity | unfold value_ok; change c_ATTR_Community_ID with 8; cbv iota beta;
+  rewrite (len_concat_be4 comm_value); lia].
+Qed.
+Lemma construct_clusterlist_valid c l b : construct_clusterlist l = Ok b -> valid_attrs c b = true.
+Proof.
+  unfold construct_clusterlist. cbv zeta. intros H. attr_inv H.
+  apply attr1_valid; first [reflexivity | unfold value_ok; change c_ATTR_ClusterList_ID with 10; cbv iota beta;
+  rewrite (len_concat_be4 (fun x => x)); lia].
+Qed.
+
+(** AS_PATH.  Guard: every segment type is one of 1..4 - ASPath.construct means to reject other
+    types but its test is `assert <exception object>` (always true); repaired by
+    build/proposed/c08-aspath-segment-type.diff, see [aspath_bad_segment_type]. *)
+Lemma len_concat_be k l : len (concat (map (be k) l)) = N.of_nat (length l) * N.of_nat k.
+Proof.
+  induction l as [|x l IH]; [reflexivity|].
+  cbn [map concat]. rewrite len_app, IH, len_be. cbn [length]. lia.
+Qed.
+Lemma step_segment_enc (asn4 : bool) (s : N * list N) rest : 1 <= fst s <= 4 ->
+  step_segment (if asn4 then 4 else 2) (enc_segment asn4 s ++ rest) = Some rest.
+Proof.
+  destruct s as [t asns]. cbn [fst]. intros Ht. unfold enc_segment. cbn [fst snd app step_segment].
+  destruct ((1 <=? t) && (t <=? 4)) eqn:E; [|lia].
+  assert (L : len asns * (if asn4 then 4 else 2) = len (concat (map (be (asn_size asn4)) asns))).
+  { rewrite len_concat_be. unfold len, asn_size. destruct asn4; reflexivity. }
+  rewrite L, splitN_app. reflexivity.
+Qed.
+Lemma construct_aspath_valid asn4 ap cr segs b :
+  Forall (fun s => 1 <= fst s <= 4) segs ->
+  construct_aspath asn4 segs = Ok b -> valid_attrs (mkw asn4 ap cr) b = true.
+Proof.
+  intros G. unfold construct_aspath.
+  destruct (forallb (segment_ok asn4) segs); [|discriminate]. cbv zeta.
+  assert (V : value_ok (mkw asn4 ap cr) 2 (enc_aspath asn4 segs) = true).
+  { unfold value_ok. cbv iota beta. cbn [w_asn4]. unfold enc_aspath. apply walk_all_concat.
+    intros e He. apply in_map_iff in He as (s & <- & Hs). rewrite Forall_forall in G.
+    split; [destruct s; discriminate|]. intros rest. apply step_segment_enc. apply G. exact Hs. }
+  destruct (255 <? len (enc_aspath asn4 segs)) eqn:L.
+  - destruct (65535 <? len (enc_aspath asn4 segs)) eqn:L2; [discriminate|].
+    intros H; inversion H; subst b.
+    change (c_ATTR_ASPath_FLAG + 16) with 80. change c_ATTR_ASPath_ID with 2.
+    apply attr2_valid; [lia | reflexivity | reflexivity | exact V].
+  - intros H; inversion H; subst b. unfold tlv1. change c_ATTR_ASPath_ID with 2.
+    apply attr1_valid; [reflexivity | reflexivity | exact V].
+Qed.
+Lemma aspath_bad_segment_type : exists segs b,
+  construct_aspath false segs = Ok b /\ valid_attrs cfg0 b = false.
+Proof. exists [(5, [1])]. eexists. split; vm_compute; reflexivity. Qed.
